@@ -17,15 +17,21 @@ class ParallelEvaluator(Evaluator):
 
     def evaluate_async(self, problem: Problem, individuals: Iterable[Individual[Any, Any]]) -> Generator[Individual, Any, Any]:
         indivs = list(individuals)
+        # Like the sequential evaluator, only evaluate individuals that have no fitness yet, each one once.
+        pending: list[Individual] = []
+        for ind in indivs:
+            if not ind.has_fitness(problem) and not any(ind is p for p in pending):
+                pending.append(ind)
 
         def mapper(ind: Individual) -> Fitness:
             return self.eval_single(problem, ind)
 
-        from pathos.multiprocessing import ProcessingPool as Pool  # pyright: ignore
+        if pending:
+            from pathos.multiprocessing import ProcessingPool as Pool  # pyright: ignore
 
-        with Pool(len(indivs)) as pool:
-            fitnesses = pool.map(mapper, indivs)
-            for i, f in zip(indivs, fitnesses):
+            with Pool(len(pending)) as pool:
+                fitnesses = pool.map(mapper, pending)
+            for i, f in zip(pending, fitnesses):
                 i.set_fitness(problem, f)
                 self.register_evaluation()
-                yield i
+        yield from indivs
